@@ -26,7 +26,7 @@ def track_variants(k):
 
 # TRACK numbers are labels: the order of the sheet and the index times decide where a track starts and ends
 TRACK_NUMBERS = {"odd": [3, 9, 10, 42], "desc": [42, 10, 9, 3], "restart": [1, 2, 1, 2], "firsthigh": [9, 1, 2, 3], "equal": [1, 1, 1, 1],
-                 "zero": [0, 0, 1, 99]}
+                 "zero": [0, 0, 1, 99], "wide": [99, 100, 101, 1000], "widefirst": [100, 7, 255, 8]}
 
 
 def make_tracks(positions, opts, first_number=1, numbering="std", modes=None):
@@ -190,8 +190,8 @@ class Check(CheckBase):
             "thorough) x per-track {one INDEX | INDEX 00+01} x {TITLE | none} under deviation bound 1 x bin length = last "
             "index*2352 + r for r in {0,1,2,3,4,5,2351,2352,2353,4704}, on a virtual position-coded bin through "
             "parse_cue_sheet/from_bin_cue/WAV builder; minute-carry positions 4499/4500/4501; TRACK numbers that are not 1..n in sheet order "
-            "(3/9/10/42, counting down, restarting, first one highest, all equal, 0 and 99) with unusual INDEX numbers; the mode keyword spelled audio / Audio / aUDIO per track; (iii) a subset through real "
-            ".cue/.bin files and the full ls/export run, incl. sheets of 50, 98 and 99 tracks with 0..700 bytes of ignorable lines per "
+            "(3/9/10/42, counting down, restarting, first one highest, all equal, 0 and 99, numbers of three and four digits) with unusual INDEX numbers; the mode keyword spelled audio / Audio / aUDIO per track; (iii) a subset through real "
+            ".cue/.bin files and the full ls/export run, incl. sheets of 50, 98, 99, 100 and 103 tracks with 0..700 bytes of ignorable lines per "
             "track (sheets of 3 KB .. 80 KB), and 10 title families whose shape invites special treatment by naming "
             "code (equal, L/R-pair shaped, bare L/R, dotted, unsafe characters, case-only differences, '(2)'-numbered, with and without a '.wav' ending, differing only in trailing dots / blanks, titles that contain cue keywords such as 'track 2 reprise') judged "
             "by content only: one file per track, together exactly the track windows. non-trivial = >=2 tracks, or an MSF carry, or a ragged bin tail")
@@ -217,7 +217,7 @@ class Check(CheckBase):
                         cases.append({"kind": "virtual", "positions": list(positions), "opts": [list(o) for o in opts],
                                       "binlen": Q.SECTOR * positions[-1] + r, "numbering": "odd"})
         # track numbers that are not ascending in sheet order (count down, restart, first one highest, all equal, 0 / 99)
-        for numbering in ("desc", "restart", "firsthigh", "equal", "zero"):
+        for numbering in ("desc", "restart", "firsthigh", "equal", "zero", "wide", "widefirst"):
             for k in (2, 3, 4):
                 for positions in list(itertools.combinations(P, k))[::2]:
                     for opts in ([("one", False)] * k, [("two", True)] * k):
@@ -245,7 +245,8 @@ class Check(CheckBase):
                                   "binlen": Q.SECTOR * positions[-1] + r})
         if self.quick:
             files = files[::3]
-        for n in (50, 98, 99):
+        # (100 and 103 tracks: more than a disc holds, but TRACK numbers are labels and every TRACK line starts a track)
+        for n in (50, 98, 99, 100, 103):
             for bloat in (0, 40, 200, 700):
                 files.append({"kind": "files", "positions": list(range(0, 2 * n, 2)), "opts": [["one", True]] * n,
                               "binlen": Q.SECTOR * (2 * n) + 3, "bloat": bloat})
